@@ -325,7 +325,9 @@ EndDst(m) ==
 \* permit goes back right there.  Code: nothing releases it (Close only walks the
 \* recorded connections).
 MailReject(m, d) ==
-  /\ Remote /\ phase = "run" /\ Ready /\ pc[m] = "idle" /\ d \in held[m].dst
+  \* an event of the environment: as a scripted step (Gen) it is taken at settled points only;
+  \* on the real code it may well happen while another delivery is still inside its End
+  /\ Remote /\ phase = "run" /\ (Ready \/ ~Gen) /\ pc[m] = "idle" /\ d \in held[m].dst
   /\ held' = [held EXCEPT ![m].dst = @ \ {d}]
   /\ IF D("MailRejectNoRelease") /\ Present("dest")
      THEN UNCHANGED sem /\ devs' = devs \cup {"MailRejectNoRelease"}
